@@ -24,6 +24,11 @@ func (b *builder) randomDest(page int) Array {
 // text returns a text string object for s, sometimes forcing UTF-16 and
 // sometimes using hex string syntax.
 func (b *builder) text(s string) Object {
+	if strings.HasPrefix(s, SecretPrefix) {
+		// secret markers stay plain ASCII literal strings so that a byte
+		// search of (decrypted or leaked) data finds them
+		return String(s)
+	}
 	var v String
 	if b.chance(25) {
 		v = EncodeUTF16(s)
@@ -858,12 +863,28 @@ func (b *builder) buildUpdate(i int) {
 		b.doc.Put(Ref{pt.ContentObj[0], 0}, s)
 		did = true
 	}
-	// free one unreferenced object
-	if len(b.truth.Unreferenced) > 0 && b.chance(60) {
-		n := b.truth.Unreferenced[0]
-		b.truth.Unreferenced = b.truth.Unreferenced[1:]
-		b.doc.Free(n)
+	// reuse an object number freed by an earlier update, with the next generation
+	if len(b.freed) > 0 && b.chance(60) {
+		n := b.freed[0]
+		b.freed = b.freed[1:]
+		b.doc.Put(Ref{n, 1}, D("Reused", Int(i+1), "Text", String("generation 1")))
+		b.truth.Unreferenced = append(b.truth.Unreferenced, n)
 		did = true
+	}
+	// free one unreferenced object (generation 0 ones only: keeps Free's gen+1 = 1)
+	for k, n := range b.truth.Unreferenced {
+		if !b.chance(60) || b.reused[n] {
+			continue
+		}
+		b.truth.Unreferenced = append(b.truth.Unreferenced[:k:k], b.truth.Unreferenced[k+1:]...)
+		b.doc.Free(n)
+		b.freed = append(b.freed, n)
+		if b.reused == nil {
+			b.reused = map[int]bool{}
+		}
+		b.reused[n] = true
+		did = true
+		break
 	}
 	// add a new unreferenced object
 	if !did || b.chance(40) {
